@@ -21,3 +21,5 @@ for c in "$@"; do
 done
 cd /repo && git checkout -- . 
 rm -rf /tmp/vmut
+# rebuild the verification binary from the restored tree
+(cd /verif/sim && cargo build --release --offline -q 2>/dev/null)
